@@ -22,6 +22,7 @@
 # calls the registered handlers with exactly the messages sent.
 # C06.R13 sercomm_sendmsg + sercomm_drv_pull evaluated on witness messages (255 / 256 / 257 octets, the longest
 # payload) and looped into the evaluated receiver: every message arrives once, intact.
+# C06.R14 the same on interleaved sendmsg / pull histories with several messages pending: order of arrival.
 # See DESIGN.md section 7, C06.
 
 import os
@@ -95,7 +96,9 @@ EXPLANATION = (
     "sercomm_register_rx_cb, sercomm_drv_rx_char per octet, dispatch_rx_msg, msgb helpers) is additionally evaluated on witness "
     "streams built from the transmitter's constants, and the recorded handler calls must be the messages sent.  The transmit path "
     "(sercomm_sendmsg, sercomm_drv_pull per octet, with the C integer conversions of every followed helper) is evaluated on witness "
-    "messages up to the longest promised payload and looped into that receiver (C06.R13).  A statement about all paths of "
+    "messages up to the longest promised payload and looped into that receiver (C06.R13), also on every DLCI sercomm_init() registers a handler for, and on interleaved "
+    "sendmsg / pull histories with several messages pending, where the order of arrival must be lowest DLCI first as of each "
+    "opening flag, FIFO per DLCI (C06.R14).  A statement about all paths of "
     "one step holds for every octet stream and every queueing history.")
 ALLOC_ASSUMPTION = (
     "sercomm_alloc_msgb() returns a buffer (non-NULL) in the receive step: the property quantifies over histories in which "
@@ -1399,9 +1402,13 @@ class Tx:
 
     def acts(self, p):
         out = []
+        held, rebound = set(), False     # locals holding the message in transmission; tx.msg assigned on the path
         for e in p.events:
+            if e[0] == "local":
+                (held.add if e[2] == ("expr", TXM) and not rebound else held.discard)(e[1])
             if e[0] == "store":
                 ltxt, t, shape = e[1], e[2], e[5]
+                rebound = rebound or ltxt == TXM
                 if shape is not None and shape[1] == ("expr", self.out) and shape[2] == 0:
                     out.append(("emit", t))
                 elif ltxt == TXM:
@@ -1417,7 +1424,8 @@ class Tx:
                 out.append(("setptr", e[1]))
             elif e[0] == "call":
                 if e[1] == "msgb_free":
-                    out.append(("free", e[2][0]))
+                    # a local that was loaded from tx.msg before tx.msg was assigned IS that message
+                    out.append(("free", TXM, "held") if e[2][0] in held else ("free", e[2][0]))
                 elif e[1] == "msgb_dequeue":
                     out.append(("dequeue", e[2][0]))
                 elif e[1] not in ("sercomm_lock", "sercomm_unlock"):
@@ -1862,6 +1870,8 @@ def r2_tx(L, tu, tag, tx):
                 continue
             em = [a[1] for a in sig[1] if a[0] == "emit"]
             acts = [a[:2] for a in sig[1] if a[0] in ("free", "msg")]
+            if acts == [("msg", "NULL"), ("free", TXM)] and ("free", TXM, "held") in sig[1]:
+                acts.reverse()      # released through a local that still holds the message: same effect
             adv = [a for a in sig[1] if a[0] in ("advance", "xor")]
             if len(em) == 1 and em[0][0] == "const" and acts == [("free", TXM), ("msg", "NULL")] and not adv \
                     and sig[0] != K.esc_state:
@@ -3772,7 +3782,6 @@ def r11_table_extent(L, tu, tag):
 
 FREE_FNS = ("_talloc_free", "talloc_free")
 INIT_FN = "sercomm_init"
-WITNESS_CTRL = 0x03         # HDLC_C_UI, the control octet sercomm_sendmsg() writes (the receiver only stores it)
 
 
 class RxFold(MsgbEval):
@@ -3790,6 +3799,7 @@ class RxFold(MsgbEval):
         self.delivered = []
         self.released = 0
         self.switches = {}         # id(SwitchStmt) -> [(labels, statement)]
+        self.preset = {}           # table index -> function sercomm_init() left in a table of the state object
 
     # -- the state object
     def groot(self, e, env):
@@ -3924,6 +3934,9 @@ class RxFold(MsgbEval):
             if rd.get("kind") != "FunctionDecl":
                 fv = self.fnval(tu, ks[0], env, depth)
                 args = [self.ev(tu, a, env, depth) for a in ks[1:]]
+                if _sym(fv) and fv[2] == 0 and fv[1][3:] in self.preset.values() and fv[1].startswith("fn:"):
+                    self.deliver(fv[1][3:], args)       # handler sercomm_init() registered itself: not followed
+                    return None
                 if not (_sym(fv) and fv[1] == "handler"):
                     raise AnalysisError("receive fold: call through `%s` = %s, which is not a registered witness handler"
                                         % (ctext(ks[0]), _vtext(fv)))
@@ -4001,6 +4014,34 @@ class RxFold(MsgbEval):
             raise AnalysisError("receive fold: %s() reached on a witness stream (C06.R1 / C06.R7 decide the bounds)" % e)
 
 
+def preset_handlers(ev):
+    """index -> name of the function sercomm_init() stored in an array member of the state object."""
+    out = {}
+    for p, v in ev.glob.items():
+        if _sym(v) and v[1].startswith("fn:") and v[2] == 0 and p.endswith("]"):
+            out[int(p[p.rindex("[") + 1:-1])] = v[1][3:]
+    return out
+
+
+def emitted_ctrl(tu, mtu, d):
+    """The control octet sercomm_sendmsg(d, .) writes behind the address octet (evaluated, TxFold)."""
+    tx = fold_start(TxFold, tu, mtu, (SEND, RX_ALLOC_FN, "msgb_put"))
+    try:
+        m = tx.call(RX_ALLOC_FN, [1])
+        at = tx.call("msgb_put", [m, 1]) if m == ("@", "obj", 0) else None
+        if not (_sym(at) and at[1] == "buf"):
+            raise AnalysisError("receive fold: %s(): the evaluation does not arrive at a witness message" % SEND)
+        tx.mem[at[2]] = 0x41
+        tx.call(SEND, [d, m])
+    except _Abort as e:
+        raise AnalysisError("receive fold: %s(): %s() reached on a witness message" % (SEND, e))
+    f = tx.message(at[2]) if tx.obj is not None else None
+    if not (f and len(f[0]) == 2 and f[0][0] == d and isinstance(f[0][1], int)):
+        raise AnalysisError("receive fold: the control octet %s() emits on DLCI %d does not evaluate (C06.R3 decides the header)"
+                            % (SEND, d))
+    return f[0][1]
+
+
 def rx_fold_start(tu, mtu):
     """Evaluator in the state sercomm_init() leaves behind (run on the zero-initialised objects of sercomm.c)."""
     zero = set(n for n, d in tu.vars.items() if not d.get("init") and d.get("storageClass") != "extern"
@@ -4013,6 +4054,7 @@ def rx_fold_start(tu, mtu):
             ev.call(INIT_FN, [])
         except _Abort as e:
             raise AnalysisError("receive fold: %s() ends in %s()" % (INIT_FN, e))
+    ev.preset = preset_handlers(ev)
     return ev
 
 
@@ -4022,10 +4064,13 @@ def r12_rx_fold(L, tu, mtu, tag, size, K):
     streams: sercomm_init(), sercomm_register_rx_cb(d, handler_d) and then sercomm_drv_rx_char() for every octet
     of the stream are EVALUATED (RxFold: the state object, dispatch_rx_msg and whatever helpers are called, the
     msgb allocation / tailroom / put on a concrete buffer) - however the step is written.  A stream is what the
-    transmitter tables of C06.R2 put on the wire for a message list: flag, DLCI, control octet, payload (escaped
-    set and XOR constant as extracted from sercomm_drv_pull), flag.  Witnesses: the empty payload, one octet,
+    transmitter tables of C06.R2 put on the wire for a message list: flag, DLCI, the control octet the evaluated
+    sercomm_sendmsg() writes for that DLCI, payload (escaped set and XOR constant as extracted from
+    sercomm_drv_pull), flag.  Witnesses: the empty payload, one octet,
     flag / escape / zero octets in the payload, empty payloads between other messages with noise between the
-    frames, and the longest payload the property promises (receive size - 1).  Required: the recorded handler
+    frames, the longest payload the property promises (receive size - 1), and a message on every DLCI whose handler
+    sercomm_init() registered itself (`all DLCIs with a registered handler`: the echo DLCI; a call through that
+    function is recorded, not followed).  Required: the recorded handler
     calls are exactly the message list, in order.  Every witness is an input of the property's quantifier, so a
     mismatch is a counterexample; a step the evaluation cannot follow is no verdict."""
     R = "C06.R12"
@@ -4037,6 +4082,8 @@ def r12_rx_fold(L, tu, mtu, tag, size, K):
     if len(free) < 3:
         raise AnalysisError("receive fold: %s() accepts fewer than 3 DLCIs" % REG)
     d0, d1, d2 = free[0], free[len(free) // 2], free[-1]
+    own = {d: n for d, n in sorted(probe.preset.items()) if d not in free and 0 <= d < 256}    # registered by sercomm_init()
+    ctrl = {d: emitted_ctrl(tu, mtu, d) for d in [d0, d1, d2] + list(own)}
     if not all(isinstance(getattr(K, a, None), int) for a in ("flag", "esc", "xor")):
         raise AnalysisError("receive fold: flag / escape / XOR constants of the transmitter unknown")
     noise = [o for o in (0x00, 0x41, K.esc, 0xFF) if o != K.flag]
@@ -4048,7 +4095,8 @@ def r12_rx_fold(L, tu, mtu, tag, size, K):
          [(d1, []), (d0, [1, 2, 3]), (d1, []), (d2, [K.esc]), (d0, []), (d2, [0x42])], noise),
         ("longest promised payload (%d octets) followed by a short message" % (size - 1),
          [(d1, [(7 * i + 1) & 0xFF for i in range(size - 1)]), (d0, [0x55])], []),
-    )
+    ) + tuple(("message on DLCI %d, whose handler %s() registered itself, between messages on other DLCIs" % (d, INIT_FN),
+               [(d0, [0x42]), (d, [0x41, K.flag, 0x00]), (d2, [])], []) for d in own)
 
     def wire(o):
         return [K.esc, o ^ K.xor] if o in K.escaped else [o]
@@ -4059,15 +4107,15 @@ def r12_rx_fold(L, tu, mtu, tag, size, K):
 
     for title, msgs, gap in witnesses:
         ev = rx_fold_start(tu, mtu)
-        for d in sorted({d for d, _ in msgs}):
+        for d in sorted({d for d, _ in msgs} - set(own)):
             if ev.call(REG, [d, ("@", "handler", d)]) != 0:
                 raise AnalysisError("receive fold: %s(%d, .) refused" % (REG, d))
         stream = []
         for d, p in msgs:
-            stream += gap + [K.flag] + wire(d) + wire(WITNESS_CTRL) + [x for o in p for x in wire(o)] + [K.flag]
+            stream += gap + [K.flag] + wire(d) + wire(ctrl[d]) + [x for o in p for x in wire(o)] + [K.flag]
         for o in stream + gap:
             ev.step(o)
-        want = [(d, d, tuple(p)) for d, p in msgs]
+        want = [(own.get(d, d), d, tuple(p)) for d, p in msgs]
         L.ob(R, F, RX_FN, "receive fold [%s]: %s -- every frame of the stream is handed to the handler registered for its "
              "DLCI exactly once, with its DLCI and payload, in order" % (tag, title),
              "; ".join(show(*w) for w in want), "; ".join(show(*g) for g in ev.delivered) or "no handler call",
@@ -4224,6 +4272,7 @@ def fold_start(cls, tu, mtu, anchors):
             ev.call(INIT_FN, [])
         except _Abort as e:
             raise AnalysisError("fold: %s() ends in %s()" % (INIT_FN, e))
+    ev.preset = preset_handlers(ev)
     return ev
 
 
@@ -4238,7 +4287,9 @@ def r13_tx_fold(L, tu, mtu, tag, size):
     payloads, flag / escape / zero octets, messages of 255, 256 and 257 octets including address and control
     octet (every count of octets still to be sent from there down to 0 occurs - the values at which a count kept
     in 8 bits wraps), and the longest payload the property promises (receive size - 1; in the host build every
-    count up to 2049).  Required: the handler calls are exactly the messages queued.  Each witness is an input
+    count up to 2049), and a message on every DLCI whose handler sercomm_init() registered itself (the echo DLCI;
+    the receiver gets the control octet the transmitter emitted for it).  Required: the handler calls are exactly
+    the messages queued.  Each witness is an input
     of the property's quantifier, so a mismatch is a counterexample; a step the evaluation cannot follow is no
     verdict."""
     R = "C06.R13"
@@ -4249,6 +4300,7 @@ def r13_tx_fold(L, tu, mtu, tag, size):
     if len(free) < 3:
         raise AnalysisError("transmit fold: %s() accepts fewer than 3 DLCIs" % REG)
     d0, d1, d2 = free[0], free[len(free) // 2], free[-1]
+    own = {d: n for d, n in sorted(probe.preset.items()) if d not in free and 0 <= d < 256}    # registered by sercomm_init()
 
     def ramp(n):
         return [(7 * i + 1) & 0xFF for i in range(n)]
@@ -4257,7 +4309,9 @@ def r13_tx_fold(L, tu, mtu, tag, size):
         ("empty payload, one octet, then flag / escape / zero octets",
          [(d1, []), (d2, [0x41]), (d0, [0x7E, 0x7D, 0x00, 0x41, 0x5E, 0x5D, 0x20, 0x7D, 0x7E])]),
     ] + [("message of %d octets (address + control + %d payload octets) followed by a short message" % (n + 2, n),
-          [(d1, ramp(n)), (d0, [0x55])]) for n in longest if n < size]
+          [(d1, ramp(n)), (d0, [0x55])]) for n in longest if n < size] + [
+        ("message on DLCI %d, whose handler %s() registered itself, between messages on other DLCIs" % (d, INIT_FN),
+         [(d0, [0x42]), (d, [0x41, 0x7E, 0x00]), (d2, [])]) for d in own]
 
     def show(h, d, p):
         body = " ".join("??" if o is None else o if isinstance(o, str) else "%02X" % o for o in p[:8])
@@ -4266,7 +4320,7 @@ def r13_tx_fold(L, tu, mtu, tag, size):
     for title, msgs in witnesses:
         tx = fold_start(TxFold, tu, mtu, (SEND, PULL, RX_ALLOC_FN, "msgb_put"))
         rx = fold_start(RxFold, tu, mtu, (RX_FN, REG))
-        for d in sorted({d for d, _ in msgs}):
+        for d in sorted({d for d, _ in msgs} - set(own)):
             if rx.call(REG, [d, ("@", "handler", d)]) != 0:
                 raise AnalysisError("transmit fold: %s(%d, .) refused" % (REG, d))
         pulled = 0
@@ -4297,7 +4351,7 @@ def r13_tx_fold(L, tu, mtu, tag, size):
                 # what it produced so far is compared below
         except _Abort as e:
             raise AnalysisError("transmit fold: %s() reached on a witness message" % e)
-        want = [(d, d, tuple(p)) for d, p in msgs]
+        want = [(own.get(d, d), d, tuple(p)) for d, p in msgs]
         L.ob(R, F, PULL, "transmit fold [%s]: %s -- every message handed to %s() and pulled octet by octet until %s() "
              "is idle reaches the handler of its DLCI exactly once, with its DLCI and payload" % (tag, title, SEND, PULL),
              "; ".join(show(*w) for w in want),
@@ -4305,6 +4359,283 @@ def r13_tx_fold(L, tu, mtu, tag, size):
              % (pulled, "".join("; " + n for n in tx.narrowed[:3]) if rx.delivered != want else ""),
              rx.delivered == want, tu.line(tu.func(PULL)))
     L.floor(R, "witness message lists folded through %s / %s (%s build)" % (SEND, PULL, tag), len(witnesses), 4)
+
+
+# ------------------------------------------- C06.R14 fold of the transmitter over interleaved histories
+
+PROP_FLAG = 0x7E            # `flag 0x7E`: the frame delimiter named by the property statement
+
+
+def _mid(v, what):
+    """number of the message an address ('@', 'obj:k' | 'buf:k', off) belongs to, else None."""
+    if _sym(v) and v[1].startswith(what + ":"):
+        return int(v[1][len(what) + 1:])
+    return None
+
+
+class MultiTx(TxFold):
+    """TxFold with ANY number of live messages: message k is the object ('@', 'obj:k', 0) with its own header
+    fields and data area ('@', 'buf:k', i); every lvalue carries the number of the message it belongs to, so
+    the message in transmission (sercomm.tx.msg / next_char) and messages sitting on queues or being handed to
+    sercomm_sendmsg() never alias.  msgb_enqueue() appends to / msgb_dequeue() pops the head of the per-queue
+    FIFO (their list discipline is decided by C06.R4 on their bodies); talloc_free() ends a message: what still
+    points to it is 'dead'."""
+
+    def __init__(self, tus, zero):
+        TxFold.__init__(self, tus, zero)
+        self.msgs = {}             # k -> {"obj": fields, "mem": octets, "alloc": size argument}
+        self.nmsg = 0
+        self.freed = []
+
+    def live(self, k, what):
+        m = self.msgs.get(k)
+        if m is None:
+            raise AnalysisError("history fold: a released message is accessed: `%s`" % _what(what))
+        return m
+
+    def lv(self, tu, e, env, depth):
+        s = strip(e)
+        k = kind(s)
+        if self.groot(s, env):
+            return RxFold.lv(self, tu, e, env, depth)
+        if k == "MemberExpr":
+            base = kids(s)[0]
+            sb = strip(base)
+            if s.get("isArrow"):
+                bv = self.ev(tu, base, env, depth)
+            elif kind(sb) == "UnaryOperator" and sb.get("opcode") == "*":
+                bv = self.ev(tu, kids(sb)[0], env, depth)
+            else:
+                inner = self.lv(tu, sb, env, depth)
+                if inner[0] == "field" and inner[1] != "_data":
+                    return ("field", "%s.%s" % (inner[1], s.get("name")), inner[2])
+                return ("glob", None) if inner[0] == "glob" else ("unk",)
+            if _sym(bv) and bv[1].startswith("g:") and bv[2] == 0:
+                return ("g", "%s.%s" % (bv[1][2:], s.get("name")))
+            m = _mid(bv, "obj")
+            if m is not None and bv[2] == 0:
+                return ("field", s.get("name"), m)
+            if isinstance(bv, int) and bv == 0:
+                raise AnalysisError("history fold: member `%s` accessed through a null pointer" % ctext(s))
+            if _sym(bv) and bv[1] == "dead":
+                raise AnalysisError("history fold: member `%s` accessed through a released message" % ctext(s))
+            return ("unk",)
+        if (k == "UnaryOperator" and s.get("opcode") == "*") or k == "ArraySubscriptExpr":
+            if k == "UnaryOperator":
+                pv = self.ev(tu, kids(s)[0], env, depth)
+            else:
+                a, b = kids(s)
+                pv = _vadd(self.ev(tu, a, env, depth), self.ev(tu, b, env, depth))
+            if _mid(pv, "buf") is not None:
+                return ("mem", pv)
+            if _sym(pv) and pv[1] == "dead":
+                raise AnalysisError("history fold: `%s` accesses a released message" % ctext(s))
+            return ("out",) if pv == ("@", "out", 0) else ("unk",)
+        return MsgbEval.lv(self, tu, e, env, depth)
+
+    def load(self, loc, env):
+        if loc[0] == "field":
+            return None if loc[1] == "_data" else self.live(loc[2], loc[1])["obj"].get(loc[1], 0)
+        if loc[0] == "mem":
+            return self.live(_mid(loc[1], "buf"), "data area")["mem"].get(loc[1][2])
+        return TxFold.load(self, loc, env)
+
+    def store(self, loc, v, qt, env, what):
+        if loc[0] == "field":
+            self.live(loc[2], what)["obj"][loc[1]] = self.wrap(v, qt)
+        elif loc[0] == "mem":
+            self.live(_mid(loc[1], "buf"), what)["mem"][loc[1][2]] = self.wrap(v, qt)
+        else:
+            TxFold.store(self, loc, v, qt, env, what)
+
+    def release(self, k):
+        del self.msgs[k]
+        self.freed.append(k)
+        for d in [self.glob] + list(self.envs.values()):
+            for k2, v in d.items():
+                if _mid(v, "obj") == k or _mid(v, "buf") == k:
+                    d[k2] = ("@", "dead", k)
+
+    def octets(self, k):
+        """every octet of message k from data to tail, None where that does not evaluate."""
+        o = self.msgs[k]["obj"]
+        d, t = o.get("data", 0), o.get("tail", 0)
+        if not (_mid(d, "buf") == _mid(t, "buf") == k and d[2] <= t[2]):
+            return None
+        return tuple(self.msgs[k]["mem"].get(i) for i in range(d[2], t[2]))
+
+    def call(self, name, args, depth=0):
+        if name == ALLOC_FN:
+            if len(args) < 2:
+                raise AnalysisError("history fold: %s() signature changed" % ALLOC_FN)
+            k, self.nmsg = self.nmsg, self.nmsg + 1
+            self.msgs[k] = {"obj": {}, "mem": {}, "alloc": args[1]}
+            return ("@", "obj:%d" % k, 0)
+        if name in FREE_FNS:
+            p = args[0] if args else None
+            k = _mid(p, "obj")
+            if k is not None and p[2] == 0 and k in self.msgs:
+                if any(p in q for q in self.queues.values()):
+                    raise AnalysisError("history fold: %s() of a message that sits on a queue" % name)
+                self.release(k)
+                return 0
+            if isinstance(p, int) and p == 0:
+                return None
+            raise AnalysisError("history fold: %s(%s) is not a live message" % (name, _vtext(p)))
+        if name == ENQ_FN:
+            path = self.queue_of(name, args, 2)
+            k = _mid(args[1], "obj")
+            if k is None or args[1][2] != 0 or k not in self.msgs or any(args[1] in q for q in self.queues.values()):
+                raise AnalysisError("history fold: %s() of `%s` -- not a live message off every queue" % (name, _vtext(args[1])))
+            self.queues.setdefault(path, []).append(args[1])
+            self.relink(path)
+            return None
+        if name == DEQ_FN:
+            path = self.queue_of(name, args, 1)
+            q = self.queues.get(path) or []
+            m = q.pop(0) if q else 0
+            self.relink(path)
+            return m
+        if self.find(name) is None and name not in ABORT_FNS and any(
+                _mid(a, "obj") is not None or _mid(a, "buf") is not None for a in args):
+            raise AnalysisError("history fold: a message is handed to %s(), whose body is not available" % name)
+        self.stack.append(name)
+        try:
+            return MsgbEval.call(self, name, args, depth)
+        finally:
+            self.stack.pop()
+
+    @staticmethod
+    def binop(op, a, b):
+        if op in ("==", "!=") and _sym(a) and _sym(b) and a[1] != b[1]:
+            ka, kb = a[1].startswith("g:"), b[1].startswith("g:")
+            if ka != kb and (a[1] if kb else b[1]).split(":")[0] in ("entry", "obj", "buf"):
+                return int(op == "!=")      # a message is not a part of the state object
+        return RxFold.binop(op, a, b)
+
+    def ev(self, tu, e, env, depth):
+        k = kind(e) if e else None
+        addr = k == "UnaryOperator" and e.get("opcode") == "&"
+        if addr or (k in ("ImplicitCastExpr", "CStyleCastExpr") and e.get("castKind") == "ArrayToPointerDecay"):
+            s = strip(kids(e)[0])
+            if kind(s) == "StringLiteral":
+                return None
+            if not (kind(s) == "DeclRefExpr" and s.get("referencedDecl", {}).get("kind") == "FunctionDecl"):
+                self.tick()
+                loc = self.lv(tu, s, env, depth)
+                if loc[0] == "field" and loc[1] == "_data":
+                    return ("@", "buf:%d" % loc[2], 0)
+                if addr and loc[0] == "g":
+                    return ("@", "g:" + loc[1], 0)
+                return loc[1] if addr and loc[0] == "mem" else None
+        return TxFold.ev(self, tu, e, env, depth)
+
+
+def r14_tx_histories(L, tu, mtu, tag, size):
+    """C06.R14 - the transmitter, run on interleaved histories.  Decides the clause `FIFO per DLCI and lower
+    DLCI numbers first` over `all interleavings of sendmsg and pull` on witness histories: sequences of
+    sercomm_sendmsg(d, msg) and sercomm_drv_pull() calls with SEVERAL messages pending (MultiTx), among them
+    histories in which a message on a lower DLCI is queued after the closing flag of one frame was pulled and
+    before the next pull, and in the middle of a frame.  Every pulled octet goes to the evaluated receive step
+    (C06.R12), whose handler calls give the order of the messages on the wire.  Reference: a message is chosen
+    when its opening flag is pulled (a flag octet 0x7E pulled while no frame is open), and the one chosen is the
+    oldest message of the lowest-numbered DLCI that has messages queued AT THAT MOMENT - a message queued later
+    cannot be meant, one queued earlier on a lower DLCI must not wait for a frame that had not begun.  Each
+    history is an input of the property's quantifier, so a different order (or a lost / duplicated message) is
+    a counterexample; a step the evaluation cannot follow is no verdict."""
+    R = "C06.R14"
+    for fn in (SEND, PULL):
+        L.fn(F, fn)
+    probe = fold_start(RxFold, tu, mtu, (RX_FN, REG))
+    free = [d for d in range(256) if probe.call(REG, [d, ("@", "handler", d)]) == 0]
+    if len(free) < 3:
+        raise AnalysisError("history fold: %s() accepts fewer than 3 DLCIs" % REG)
+    lo, mid, hi = free[0], free[len(free) // 2], free[-1]
+    S, FRAME, ALL = "send", "pull until one more frame is delivered", "pull until idle"
+    histories = (
+        ("two messages pending on one DLCI, a lower DLCI queued between the closing flag of the first frame and the next pull",
+         [(S, hi, [0xA1]), (S, hi, [0xA2]), (FRAME,), (S, lo, [0xA3]), (ALL,)]),
+        ("messages pending on two DLCIs, a lower DLCI queued between two frames, twice",
+         [(S, mid, [0xB1, 0x7E]), (S, hi, [0xB2]), (S, hi, []), (FRAME,), (S, lo, [0xB3]), (FRAME,), (S, lo, [0xB4, 0x00]), (ALL,)]),
+        ("a lower DLCI and the same DLCI queued in the middle of a frame",
+         [(S, hi, [0xC1, 0xC2, 0xC3, 0xC4]), (3,), (S, hi, [0xC5]), (S, lo, [0xC6]), (ALL,)]),
+        ("six messages on three DLCIs queued before the first pull",
+         [(S, hi, [0xD1]), (S, lo, [0xD2]), (S, hi, [0xD3]), (S, mid, []), (S, lo, [0xD5, 0x7D]), (S, mid, [0xD6]), (ALL,)]),
+        ("queue, pull until idle, queue again in falling priority",
+         [(S, mid, [0xE1]), (ALL,), (S, hi, [0xE2]), (S, mid, [0xE3]), (S, lo, [0xE4]), (ALL,), (S, hi, [0xE5]), (ALL,)]),
+    )
+
+    def show(h, d, p):
+        return "dlci %s [%s]" % (_vtext(d), " ".join("??" if o is None else o if isinstance(o, str) else "%02X" % o for o in p[:8]))
+
+    for title, hist in histories:
+        tx = fold_start(MultiTx, tu, mtu, (SEND, PULL, RX_ALLOC_FN, "msgb_put"))
+        rx = fold_start(RxFold, tu, mtu, (RX_FN, REG))
+        for d in (lo, mid, hi):
+            if rx.call(REG, [d, ("@", "handler", d)]) != 0:
+                raise AnalysisError("history fold: %s(%d, .) refused" % (REG, d))
+        model = {lo: [], mid: [], hi: []}       # the reference queues
+        want, state = [], {"open": False, "pulled": 0}
+
+        def pull():
+            tx.envs, tx.out = {}, None
+            r = tx.call(PULL, [("@", "out", 0)])
+            if not isinstance(r, int):
+                raise AnalysisError("history fold: the value returned by %s() does not evaluate" % PULL)
+            if r == 0:
+                return False
+            if not isinstance(tx.out, int):
+                raise AnalysisError("history fold: %s() reports an octet without storing one (C06.R6)" % PULL)
+            state["pulled"] += 1
+            if tx.out == PROP_FLAG:
+                state["open"] = not state["open"]
+                if state["open"]:
+                    d = min((d for d in model if model[d]), default=None)
+                    if d is None:
+                        raise AnalysisError("history fold: %s() opens a frame with no message queued" % PULL)
+                    want.append((d, d, tuple(model[d].pop(0))))
+            elif not state["open"]:
+                raise AnalysisError("history fold: %s() sends an octet outside a frame (C06.R2 decides the flags)" % PULL)
+            rx.step(tx.out)
+            return True
+
+        try:
+            for op in hist:
+                if op[0] == S:
+                    _, d, p = op
+                    tx.envs = {}
+                    m = tx.call(RX_ALLOC_FN, [len(p)])
+                    k = _mid(m, "obj")
+                    if k is None or k not in tx.msgs:
+                        raise AnalysisError("history fold: %s(%d) does not arrive at a buffer from %s()" % (RX_ALLOC_FN, len(p), ALLOC_FN))
+                    at = tx.call("msgb_put", [m, len(p)])
+                    if _mid(at, "buf") != k:
+                        raise AnalysisError("history fold: msgb_put() of the payload does not return an address of the data area")
+                    for i, o in enumerate(p):
+                        tx.msgs[k]["mem"][at[2] + i] = o
+                    tx.call(SEND, [d, m])
+                    model[d].append(p)
+                elif op[0] == FRAME:
+                    n = len(rx.delivered)
+                    for _ in range(64):
+                        if len(rx.delivered) > n or not pull():
+                            break
+                elif op[0] == ALL:
+                    for _ in range(256):
+                        if not pull():
+                            break
+                else:
+                    for _ in range(op[0]):
+                        pull()
+        except _Abort as e:
+            raise AnalysisError("history fold: %s() reached on a witness history" % e)
+        want += [(d, d, tuple(p)) for d in sorted(model) for p in model[d]]     # never sent
+        L.ob(R, F, PULL, "history fold [%s]: %s -- the messages arrive exactly once each, in the order in which the lowest "
+             "DLCI with messages queued is chosen whenever an opening flag is pulled, oldest message first" % (tag, title),
+             "; ".join(show(*w) for w in want),
+             ("; ".join(show(*g) for g in rx.delivered) or "no handler call") + " (%d octets pulled)" % state["pulled"],
+             rx.delivered == want, tu.line(tu.func(PULL)))
+    L.floor(R, "interleaved histories folded through %s / %s (%s build)" % (SEND, PULL, tag), len(histories), 5)
 
 
 def r4_sendmsg(L, tu, mtu, tag):
@@ -5873,6 +6204,7 @@ def run(L, tier):
         L.stage(r6_pull_contract, L, tu, tag, tx)
         rxvals[kindname] = L.stage(rx_return_values, L, tu, tag, rx)
         L.stage(r13_tx_fold, L, tu, mtu, tag, size)
+        L.stage(r14_tx_histories, L, tu, mtu, tag, size)
         K = L.stage(r2_tx, L, tu, tag, tx)
         if K is None:
             continue        # the transmitter's shape is already reported as violated
